@@ -120,6 +120,11 @@ func (h *NFSProcedureHandler) handleWrite(body io.Reader, reply *RPCReply, authC
 		return nfsErrorWithWcc(reply, NFSERR_INVAL), nil
 	}
 
+	// Enforce the export's maximum file size (0 = unlimited)
+	if limit := h.server.handler.policy.Load().MaxFileSize; limit > 0 && count > 0 && offset+uint64(count) > uint64(limit) {
+		return nfsErrorWithWcc(reply, NFSERR_FBIG), nil
+	}
+
 	// Rate limiting for large writes
 	if count > 65536 && h.server.handler.rateLimiter != nil && h.server.handler.policy.Load().EnableRateLimiting {
 		if !h.server.handler.rateLimiter.AllowOperation(authCtx.ClientIP, OpTypeWriteLarge) {
